@@ -218,6 +218,23 @@ theorem C11_refine_remove_node (f : Forest) (hi : f.Inv) (k : Forest.MapKind) (e
   rw [st.abs_same, hmap, h.abs_eq k]
   rfl
 
+/-- `append_*_node` / `any_append` of ANY live entry node — detached, or still attached to this
+    or another element — whose key the view already has: the view becomes `omInsert`, the
+    existing node keeps place and handle, takes the value and is returned, and the forest changes
+    by that one value only (the passed node stays where it is). -/
+theorem C11_insert_node_existing_key (f : Forest) (hi : f.Inv) (k : Forest.MapKind) (e nd : Nat)
+    (v : Value) (n : HTree) (he : f.isElement e = true) (hval : f.value? nd = some v)
+    (hm : k.matches v = true) (hn : f.mapGetNode k e (Forest.entryKey v) = some n) :
+    f.appendEntryNode k e nd =
+      (f.setValue n.handle (Forest.entryUpdate n.value v), .ok, n.handle) ∧
+    abs k (f.appendEntryNode k e nd).1 e = omInsert (abs k f e) (Forest.entryKey v) (payloadOf v) ∧
+    absNodes k (f.appendEntryNode k e nd).1 e = absNodes k f e ∧
+    (f.appendEntryNode k e nd).1.Inv := by
+  obtain ⟨nm, N, A, S, h⟩ := minv_of_inv f e hi he
+  obtain ⟨s', st, heq, hmap, hnodes⟩ := appendEntryNode_existing h k nd v hval hm n hn
+  exact ⟨heq, by rw [st.abs_same, hmap, h.abs_eq], by rw [st.nodes_same, hnodes, h.absNodes_eq],
+    inv_of_step_same hi h st⟩
+
 /-- `append_*_node` / `any_append` of a node that already is an entry of this view of this
     element is the identity and returns that node. -/
 theorem C11_append_own_node (f : Forest) (hi : f.Inv) (k : Forest.MapKind) (e hd : Nat)
